@@ -32,9 +32,9 @@ func init() {
 	core.Register(&core.Prop{
 		ID: "C04",
 		Modes: []core.ModeSpec{
-			{Name: "faults", Weight: 349},
+			{Name: "faults", Weight: 347},
 			{Name: "control", Weight: 50},
-			{Name: "large", Weight: 1},
+			{Name: "large", Weight: 3},
 		},
 		Run:  run,
 		Enum: enum,
@@ -871,6 +871,17 @@ func runLongText(c *core.Ctx, g *gen.G) {
 		{"plain words only, nothing to escape at all. "},
 	}[[]int{0, 1, 1, 2}[t.Draw(4)]]
 	buf := make([]byte, 0, size+64)
+	if t.Bool(1, 5) {
+		// nested delimiters (a serialised array of arrays, a deeply quoted reply, wiki markup): all the
+		// openers first, all the closers last – the worst case for any helper that looks for the
+		// closer of each opener
+		d := [][2]string{{"[", "]"}, {"{", "}"}, {"(", ")"}, {"<", ">"}, {"[[", "]]"}, {"\"", "\""}}[t.Draw(6)]
+		half := size / (2 * len(d[0]))
+		buf = append(buf, strings.Repeat(d[0], half)...)
+		buf = append(buf, "en"...)
+		buf = append(buf, strings.Repeat(d[1], half)...)
+		c.Probe("long_text_of_nested_delimiters")
+	}
 	for len(buf) < size {
 		buf = append(buf, pieces[t.Draw(len(pieces))]...)
 	}
@@ -885,11 +896,17 @@ func runLongText(c *core.Ctx, g *gen.G) {
 		v = &ap.Object{ID: g.IRI(), Type: ap.NoteType, Source: ap.Source{Content: ap.NaturalLanguageValues{{Ref: ap.NilLangRef, Value: buf}}, MediaType: "text/markdown"}}
 	}
 	e := byName[names[t.Draw(len(names))]]
+	if te := byCodec["text"]; len(te) > 0 && t.Bool(1, 3) {
+		// the text itself at one of the text entry points (UnmarshalText of the language-value types)
+		e = te[t.Draw(len(te))]
+	}
 	if e == nil {
 		return
 	}
 	var msg []byte
-	if e.codec == "json" && t.Bool(2, 3) {
+	if e.codec == "text" {
+		msg = append([]byte(nil), buf...)
+	} else if e.codec == "json" && t.Bool(2, 3) {
 		// written by a peer (encoding/json), as most articles a server decodes are
 		doc := map[string]any{"@context": "https://www.w3.org/ns/activitystreams", "id": string(v.GetLink()), "type": "Article"}
 		switch t.Draw(3) {
